@@ -16,8 +16,24 @@ INFO = {
  "C06": ("model_checking", "all scores reached by the C01-C05 scans and the report score fields collapsed to distinct observation tuples, each judged by TLC against the grid / printing / severity-band definitions of CvssTables (band partition checked at spec level).", "7 C06"),
  "C13": ("model_checking", "spec-level invariants (TemporalLeBase, AllNDIsIdentity, XIsNeutral, AllNDEqualsBase) plus the four relations observed on the real code over their complete domains, collapsed to tuples judged by TLC.", "7 C13"),
  "C20": ("model_checking", "complete probe of every metric type's parser, printer, validity predicate and weight function (all contexts) and both version parsers; every probe validated by TLC against CvssTables.", "7 C20"),
+ "C07": ("model_checking", "Vector.tla states the v3 acceptance language declaratively; MC_Lang explores the character- and token-level edit neighbourhoods of seed vectors (lemmas: monotone in level, canonical fixed point, projection accepted) and every explored string, plus seeded random vectors, edits and byte strings, is decoded by all three real decoders; TLC validates each outcome (ok <=> Accepts, rejected => no object). Exhaustive within the stated edit bounds; arbitrary strings sampled.", "7 C07, Appendix A"),
+ "C08": ("model_checking", "as C07 for the v2 language (complete groups, canonical order; lemma: accepted iff byte-identical to the canonical encoding).", "7 C08, Appendix A"),
+ "C09": ("model_checking", "decoded fields, version and v2 group emptiness of every accepted input compared by TLC with Vector!Fields; pairs of two spellings (token order, X spelled or omitted) of one token set must be indistinguishable in fields, score, severity and encoding.", "7 C09"),
+ "C10": ("model_checking", "Encode/String/re-decode of every accepted input validated by TLC against Vector!Canonical (v2: byte-identical to the input) and against the first decode (fields, score, severity, encoding).", "7 C10"),
+ "C11": ("model_checking", "for every rejected input the errors.Is vector over the eleven exported sentinels is recorded; TLC requires exactly one match, that it names a defect in Vector!Defects(input), which forces the kind when only one is present.", "7 C11, Appendix A"),
+ "C14": ("model_checking", "for every accepted temporal/environmental input the BaseMetrics()/TemporalMetrics() views (score, severity, encoding) are compared with an independent lower-level decode of Vector!Project(input) (TLC recomputes the projection).", "7 C14"),
+ "C17": ("model_checking", "Report!ExpectedReport gives the value of every exported field (own level, embedded reports, shadowed unqualified names) from the object's observations and the display-name functions; all 5,184 base reports and seeded temporal/environmental reports in six languages validated field by field by TLC.", "7 C17"),
+ "C18": ("model_checking", "complete display-name table (52 functions x enumeration integers -2..8 x 10 language tags) validated by TLC against the relational specification.", "7 C18"),
 }
 NOTE = {
+ "C07": "trusted: injective ASCII escaping of input bytes; Appendix A's defect relation (validated on 1.26M prototype checks, and as lemmas in MC_Lang)",
+ "C08": "as C07",
+ "C09": "trusted: harness binding of exported constants to spec codes; acceptance disagreements are C07/C08's business and are skipped here",
+ "C10": "as C09",
+ "C11": "where several kinds of defect are present any of them may be reported (the property leaves this open)",
+ "C14": "trusted: harness token filter for the projection is re-computed and compared by TLC (Vector!Project)",
+ "C17": "expected names come from the names package for the like-named metric (C18 covers the table); a field wired to a neighbour with an equal value is invisible on that vector (vectors are drawn with differing neighbours)",
+ "C18": "regional variants of en/ja are unspecified and not probed",
  "C01": "trusted: harness binding of exported constants to spec codes (cross-checked by C20 'defs' events), float projection (tenth, exactness, printed form); token orders beyond canonical/reversed are seeded samples",
  "C02": "trusted: as C01; the base score inside the temporal equation is the specification's (MC_V3Base table), so a wrong base score also surfaces here",
  "C03": "trusted: harness-side composition of TLC-emitted tables for the part of the concrete product TLC does not see event by event (cross-checked by TLC on the raw subset and on every disagreement)",
